@@ -271,6 +271,7 @@ var checks = []Check{
 		Assumptions: engineAssumptions,
 		Jobs: []Job{
 			{Pkg: "host", Scenarios: []string{"C15/history"}, Shards: 1, QuickS: 60, ThoroughS: 240},
+			{Pkg: "proc/internal/lb", Scenarios: []string{"C06/random-leastconn"}, Shards: 1, QuickS: 60, ThoroughS: 240},
 			{Pkg: "host", Scenarios: []string{"C15/concurrent"}, Shards: 8, QuickS: 60, ThoroughS: 240},
 			{Pkg: "host", Scenarios: []string{"C15/set-race"}, Race: true, Shards: 1, QuickS: 60, ThoroughS: 240},
 			{Pkg: "proc/internal/hc", Scenarios: []string{"C15/hysteresis"}, Shards: 1, QuickS: 60, ThoroughS: 240},
